@@ -1,8 +1,22 @@
+//! mc-num: serves C24 C25 C26 C27 C29 C37 (one module per property).
 use mc_core::Ctx;
+
+mod c24;
+mod c25;
+mod c26;
+mod c27;
+mod c29;
+mod c37;
 
 fn main() {
     let ctx = Ctx::from_args();
     match ctx.id.as_str() {
+        "C24" => c24::run(ctx),
+        "C25" => c25::run(ctx),
+        "C26" => c26::run(ctx),
+        "C27" => c27::run(ctx),
+        "C29" => c29::run(ctx),
+        "C37" => c37::run(ctx),
         other => mc_core::machinery_error(&format!("mc-num does not serve {other}")),
     }
 }
